@@ -249,3 +249,28 @@ pub fn get_asset(info: MessageInfo, eligible_collateral: AssetInfo) -> (r: Asset
         eligible_collateral is Token ==> r.amount.0 == 0,
         eligible_collateral is NativeToken ==> r.amount == sent_amount(info.funds@, eligible_collateral->denom@),
 { unimplemented!() }
+
+// ---- reply plumbing (cosmwasm_std::Reply) and event parsing (utils::parse_swap / parse_pay_funding: iterator closures, T6) ----
+pub struct SubMsgResponse { pub events: Ghost<Seq<(Seq<char>, Seq<(Seq<char>, Seq<char>)>)>> }
+pub enum SubMsgResult { Ok(SubMsgResponse), Err(String) }
+pub struct Reply { pub id: u64, pub result: SubMsgResult }
+pub uninterp spec fn parsed_swap(resp: SubMsgResponse) -> (Uint128, Uint128);
+pub uninterp spec fn parsed_funding(resp: SubMsgResponse) -> (Integer, Seq<char>);
+#[verifier::external_body]
+pub fn parse_swap(response: SubMsgResponse) -> (r: StdResult<(Uint128, Uint128)>)
+    ensures r is Ok ==> r->Ok_0 == parsed_swap(response),
+{ unimplemented!() }
+#[verifier::external_body]
+pub fn parse_pay_funding(response: SubMsgResponse) -> (r: StdResult<(Integer, String)>)
+    ensures r is Ok ==> r->Ok_0.0 == parsed_funding(response).0 && r->Ok_0.1@ == parsed_funding(response).1,
+{ unimplemented!() }
+
+// ---- validate_eligible_collateral / AssetInfo::get_decimals (string matching / cw20 TokenInfo query, T6) ----
+#[verifier::external_body]
+pub fn validate_eligible_collateral(deps: Deps, input: String) -> (r: StdResult<AssetInfo>)
+{ unimplemented!() }
+impl AssetInfo {
+    #[verifier::external_body]
+    pub fn get_decimals(&self, deps: Deps) -> (r: StdResult<u8>)
+    { unimplemented!() }
+}
